@@ -22,7 +22,6 @@ import (
 	"bytes"
 	"io"
 	"reflect"
-	"unsafe"
 )
 
 //Encoder type
@@ -30,7 +29,7 @@ type Encoder struct {
 	writer     io.Writer
 	clsDefList []ClassDef
 	nameMap    map[string]string
-	refMap     map[unsafe.Pointer]_refElem
+	refMap     map[_refKey]_refElem
 	refCount   int // number of ref ordinals handed out on this stream
 }
 
@@ -52,7 +51,7 @@ func NewEncoder(w io.Writer, np map[string]string) *Encoder {
 func (e *Encoder) Reset(w io.Writer) {
 	e.writer = w
 	e.clsDefList = make([]ClassDef, 0, 11)
-	e.refMap = make(map[unsafe.Pointer]_refElem, 11)
+	e.refMap = make(map[_refKey]_refElem, 11)
 	e.refCount = 0
 }
 
